@@ -295,6 +295,59 @@ mut('C15-oracle-swapped-args', 'C15', PA, "        score_matrix = self.get_score
 mut('C15-oracle-ignores-algorithm', 'C15', PA, "        mapping = _mapping_from_score_matrix(score_matrix, self.algorithm)\n\n        return mapping", "        mapping = _mapping_from_score_matrix(score_matrix, 'greedy')\n\n        return mapping", expect='assignment')
 mut('C16-dhtv-centroid-stale', 'C16', PA, "                time_centroid = np.mean(features[:, start:end, :], axis=1)", "                time_centroid = np.mean(mask[:, start:end, :], axis=1)", expect='centroid')
 
+
+# ------------------------------------------------------------------ C05 / C06 / C09 / C18 / C19
+MM = 'pb_bss/extraction/mask_module.py'
+SX = 'pb_bss/evaluation/sxr_module.py'
+mut('D5-diag-logdet-not-restored', 'C06', D + 'gaussian.py', "        self.log_det_precision_cholesky = np.reshape(\n            _compute_log_det_cholesky(pc, 'diag', D),\n            self.covariance.shape[:-1]\n        )", "        self.log_det_precision_cholesky = _compute_log_det_cholesky(pc, 'diag', D)", expect='unrestored')
+mut('D6-cacg-ones-star', 'C06', D + 'complex_angular_central_gaussian.py', "            quadratic_form = np.ones((*independent, N))", "            quadratic_form = np.ones(*independent, N)", expect='constructor-shape')
+mut('D10-quantile-float-dim', 'C18', MM, "        [np.prod(shape[:-len(tmp_axis)], dtype=np.int64),\n         np.prod(shape[-len(tmp_axis):], dtype=np.int64)])", "        [np.prod(shape[:-len(tmp_axis)]), np.prod(shape[-len(tmp_axis):])])", expect='prod-dtype')
+mut('D11-output-sxr-prefix-dead', 'C19', SX, "    if return_dict:\n        if return_dict is True:\n            return {'sdr': SDR, 'sir': SIR, 'snr': SNR}\n        elif isinstance(return_dict, str):\n            return {return_dict + 'sdr': SDR,\n                    return_dict + 'sir': SIR,\n                    return_dict + 'snr': SNR}\n        else:\n            raise TypeError(return_dict)\n    else:\n        return ResultTuple(SDR, SIR, SNR)\n\n\ndef output_sxr", "    if return_dict:\n        if return_dict is True:\n            return {'sdr': SDR, 'sir': SIR, 'snr': SNR}\n        elif isinstance(return_dict, str):\n            return {return_dict + 'sdr': SDR,\n                    return_dict + 'sir': SIR,\n                    return_dict + 'snr': SNR}\n        else:\n            raise TypeError(return_dict)\n    else:\n        return ResultTuple(SDR, SIR, SNR)\n\n\ndef output_sxr", expect=None)
+C.pop()
+mut('D11-output-sxr-prefix-dead', 'C19', SX, "        SNR = np.mean(SNR)\n\n    if return_dict:", "        SNR = np.mean(SNR)\n\n    if return_dict is True:", expect='dict-prefix')
+mut('C05-literal-class-index', 'C05', D + 'cwmm.py', "            masked_affiliation = affiliation * saliency[..., None, :]\n\n        complex_watson", "            masked_affiliation = affiliation * saliency[..., None, :]\n            masked_affiliation = masked_affiliation / masked_affiliation[..., 0, :][..., None, :]\n\n        complex_watson", expect='literal-class-index')
+mut('C05-first-class-special', 'C05', D + 'mixture_model_utils.py', "    affiliation /= denominator\n\n    # Strictly", "    affiliation /= denominator\n    affiliation[..., 0, :] += 1e-12\n\n    # Strictly", expect=None)
+mut('C05-argmax-over-classes', 'C05', D + 'mixture_model_utils.py', "    affiliation = log_pdf - np.amax(log_pdf, axis=-2, keepdims=True)", "    affiliation = log_pdf - np.amax(log_pdf, axis=-2, keepdims=True) - 1e-12 * np.argmax(log_pdf, axis=-2)[..., None, :]", expect='order-sensitive')
+mut('C05-loop-over-classes', 'C05', D + 'gmm.py', "        gaussian = GaussianTrainer()._fit(\n            y=x[..., None, :, :],", "        for k in range(affiliation.shape[-2]):\n            pass\n        gaussian = GaussianTrainer()._fit(\n            y=x[..., None, :, :],", expect=None)
+mut('C05-no-class-axis', 'C05', D + 'vmfmm.py', "            self.vmf.log_pdf(y[..., None, :, :]),", "            self.vmf.log_pdf(y[..., :, :]),", expect='class-axis')
+mut('C06-positive-axis', 'C06', D + 'von_mises_fisher.py', "        r_bar = norm / np.sum(saliency, axis=-1)", "        r_bar = norm / np.sum(saliency, axis=1)", expect='axis')
+mut('C06-axisless-mean', 'C06', D + 'mixture_model_utils.py', "        np.sum(affiliation, axis=-2, keepdims=True),\n        np.finfo(affiliation.dtype).tiny,\n    )\n    affiliation /= denominator\n\n    # Strictly", "        np.sum(affiliation, axis=-2, keepdims=True) + 0 * np.sum(affiliation),\n        np.finfo(affiliation.dtype).tiny,\n    )\n    affiliation /= denominator\n\n    # Strictly", expect='axisless', props=['C06'])
+mut('C06-get-pca-not-restored', 'C06', 'pb_bss/utils.py', "    beamforming_vector = np.reshape(beamforming_vector, shape[:-1])\n    eigenvalues = np.reshape(eigenvalues, shape[:-2])\n\n    return beamforming_vector, eigenvalues\n\n\ndef get_stft", "    beamforming_vector = np.reshape(beamforming_vector, shape[:-1])\n\n    return beamforming_vector, eigenvalues\n\n\ndef get_stft", expect='unrestored')
+mut('C06-gaussian-precision-not-restored', 'C06', D + 'gaussian.py', "        pc = _compute_precision_cholesky(c, 'full')\n        self.precision_cholesky = np.reshape(pc, self.covariance.shape)", "        pc = _compute_precision_cholesky(c, 'full')\n        self.precision_cholesky = pc", expect='unrestored')
+mut('C06-bingham-loop-wrong-slice', 'C06', D + 'complex_bingham.py', "            eigenvalues[index] = self.find_eigenvalues_v3(\n                scatter_eigenvalues[index],", "            eigenvalues[index] = self.find_eigenvalues_v3(\n                scatter_eigenvalues[0],", expect='index-local')
+mut('C09-vmf-mean-unfloored', 'C09', D + 'von_mises_fisher.py', "        mean = r / np.maximum(norm, np.finfo(y.dtype).tiny)[..., None]", "        mean = r / norm[..., None]", expect='mean')
+mut('C09-watson-bounds-error', 'C09', D + 'complex_watson.py', "            bounds_error=False,\n            fill_value=(0, self.max_concentration),", "            bounds_error=False,\n            fill_value='extrapolate',", expect='spline')
+mut('C09-cacg-no-floor', 'C09', D + 'complex_angular_central_gaussian.py', "            eigenvals = np.maximum(\n                eigenvals,\n                eigenvalue_floor,\n            )\n        else:", "            eigenvals = eigenvals + 0 * eigenvalue_floor\n        else:", expect='floor')
+mut('C09-cacg-max-normalisation-axis', 'C09', D + 'complex_angular_central_gaussian.py', "                np.amax(eigenvals, axis=-1, keepdims=True),\n                np.finfo(eigenvals.dtype).tiny,", "                np.amax(eigenvals, axis=-2, keepdims=True),\n                np.finfo(eigenvals.dtype).tiny,", expect='max-normalisation')
+mut('C09-cacg-not-hermitised', 'C09', D + 'complex_angular_central_gaussian.py', "        if hermitize:\n            covariance = force_hermitian(covariance)", "        if hermitize and False:\n            covariance = force_hermitian(covariance)", expect='hermitize')
+mut('C09-bingham-bounds-positive', 'C09', D + 'complex_bingham.py', "                bounds=(-max_concentration, -1e-8),", "                bounds=(-max_concentration, 1e-8),", expect='bounds')
+mut('C09-bingham-no-floor', 'C09', D + 'complex_bingham.py', "            est = np.maximum(est, -max_concentration)\n", "            est = est + 0.\n", expect='floor')
+mut('C09-weights-uniform-wrong', 'C09', D + 'mixture_model_utils.py', "        K = affiliation.shape[-2]\n        return np.full([K, 1], 1/K)\n    elif isinstance", "        K = affiliation.shape[-1]\n        return np.full([K, 1], 1/K)\n    elif isinstance", expect='uniform')
+mut('C09-gaussian-mass-unfloored', 'C09', D + 'gaussian.py', "            denominator = np.maximum(\n                np.einsum(\"...n->...\", saliency),\n                np.finfo(y.dtype).tiny\n            )\n            mean = np.einsum(\"...n,...nd->...d\", saliency, y)", "            denominator = np.einsum(\"...n->...\", saliency)\n            mean = np.einsum(\"...n,...nd->...d\", saliency, y)", expect='mass-floor')
+mut('C09-force-hermitian-axes', 'C09', D + 'utils.py', "    return (matrix + np.swapaxes(matrix.conj(), -1, -2)) / 2", "    return (matrix + np.swapaxes(matrix.conj(), 0, -1)) / 2", expect='form')
+mut('C18-ibm-argmax-fixed-axis', 'C18', MM, "    mask = np.expand_dims(np.argmax(mask, axis=source_axis), source_axis)", "    mask = np.expand_dims(np.argmax(mask, axis=0), source_axis)", expect=None)
+mut('C18-ibm-argmin', 'C18', MM, "    mask = np.expand_dims(np.argmax(mask, axis=source_axis), source_axis)", "    mask = np.expand_dims(np.argmin(mask, axis=source_axis), source_axis)", expect=None)
+mut('C18-wiener-sum-sensor-axis', 'C18', MM, "    mask = abs_square(signal)\n\n    if sensor_axis is not None:\n        mask = mask.sum(sensor_axis, keepdims=True)\n\n    mask /= mask.sum(source_axis, keepdims=True) + eps", "    mask = abs_square(signal)\n\n    if sensor_axis is not None:\n        mask = mask.sum(sensor_axis, keepdims=True)\n\n    mask /= mask.sum(0, keepdims=True) + eps", expect=None)
+mut('C18-irm-no-eps', 'C18', MM, "    mask = np.abs(signal)\n\n    mask /= mask.sum(source_axis, keepdims=True) + eps", "    mask = np.abs(signal)\n\n    mask /= mask.sum(source_axis, keepdims=True)", expect='normalisation')
+mut('C18-psm-sin', 'C18', MM, "    mask *= np.cos(theta)", "    mask *= np.sin(theta)", expect='form')
+mut('C18-psm-angle-order', 'C18', MM, "    theta = np.angle(signal) - np.angle(observed_signal)", "    theta = np.angle(signal) + np.angle(observed_signal)", expect='form')
+mut('C18-icm-keepdims', 'C18', MM, "    observed_signal = np.sum(signal, axis=source_axis, keepdims=True)\n    return signal / observed_signal", "    observed_signal = np.sum(signal, axis=source_axis)\n    return signal / observed_signal", expect='form')
+mut('C18-quantile-direction', 'C18', MM, "            mask[i, :] = signal[i, :] > threshold[i]\n        else:\n            mask[i, :] = signal[i, :] < threshold[i]", "            mask[i, :] = signal[i, :] < threshold[i]\n        else:\n            mask[i, :] = signal[i, :] > threshold[i]", expect='direction')
+mut('C18-lorenz-restore-axes', 'C18', MM, "    mask = np.moveaxis(mask.reshape(shape), tmp_axis, axis)\n\n    if sensor_axis is not None and not keepdims:", "    mask = np.moveaxis(mask.reshape(shape), axis, tmp_axis)\n\n    if sensor_axis is not None and not keepdims:", expect='restore')
+mut('C18-lorenz-levels', 'C18', MM, "    mask = 0.5 + weight * (mask - 0.5)\n\n    # Reverts", "    mask = 0.5 + weight * (mask - 1.0)\n\n    # Reverts", expect='levels')
+mut('C18-mask-mutates-input', 'C18', MM, "    signal = np.asarray(signal)\n    assert sensor_axis is None, \"\"\"\nHow to handle sensor_axis is not defined.\nPossible ways to handle it:\n    signal = signal.abs().sum(sensor_axis)  # problem, because signal is real\n    signal = signal.sum(sensor_axis)\n    signal = (signal**2).abs().sum(sensor_axis).sqrt()  # problem, because signal is real\nBut this destroys the signal, which is complex.\n\"\"\"\n\n    observed_signal = np.sum(signal, axis=source_axis, keepdims=True)\n    return signal / observed_signal",
+    "    signal = np.asarray(signal)\n    assert sensor_axis is None, \"\"\"\nHow to handle sensor_axis is not defined.\nPossible ways to handle it:\n    signal = signal.abs().sum(sensor_axis)  # problem, because signal is real\n    signal = signal.sum(sensor_axis)\n    signal = (signal**2).abs().sum(sensor_axis).sqrt()  # problem, because signal is real\nBut this destroys the signal, which is complex.\n\"\"\"\n\n    observed_signal = np.sum(signal, axis=source_axis, keepdims=True)\n    signal /= observed_signal\n    return signal", expect='R-MUT', props=['C18', 'C20'])
+mut('C19-sdr-denominator', 'C19', SX, "    SDR = _sxr(S, I + N)\n    SIR = _sxr(S, I)\n    SNR = _sxr(S, N)\n\n    if average_sources:\n        SDR = np.mean(SDR, axis=0)", "    SDR = _sxr(S, I + I)\n    SIR = _sxr(S, I)\n    SNR = _sxr(S, N)\n\n    if average_sources:\n        SDR = np.mean(SDR, axis=0)", expect='power-decomposition')
+mut('C19-sir-snr-swapped', 'C19', SX, "    SDR = _sxr(SS, II + NN)\n    SIR = _sxr(SS, II)\n    SNR = _sxr(SS, NN)", "    SDR = _sxr(SS, II)\n    SIR = _sxr(SS, II + NN)\n    SNR = _sxr(SS, NN)", expect='order')
+mut('C19-self-leak-input', 'C19', SX, "                S[[n for n in range(K) if n != k], d],", "                S[[n for n in range(K) if n != d], d],", expect='exclusion')
+mut('C19-self-leak-output', 'C19', SX, "            np.delete(S[:, selection[k_source]], k_source, axis=0)", "            np.delete(S[:, selection[k_source]], 0, axis=0)", expect='exclusion')
+mut('C19-output-argmin', 'C19', SX, "    max_idx = np.argmax(mutual_power)", "    max_idx = np.argmin(mutual_power)", expect='argmax')
+mut('C19-output-partial-enumeration', 'C19', SX, "        list(itertools.permutations(range(K_target), r=K_source))\n    )\n    assert", "        list(itertools.permutations(range(K_source), r=K_source))\n    )\n    assert", expect='enumeration')
+mut('C19-sisdr-axis', 'C19', 'pb_bss/evaluation/module_si_sdr.py', "    reference_energy = np.sum(reference ** 2, axis=-1, keepdims=True)", "    reference_energy = np.sum(reference ** 2, axis=0, keepdims=True)", expect='axis')
+mut('C19-sisdr-noise-form', 'C19', 'pb_bss/evaluation/module_si_sdr.py', "    noise = estimation - projection", "    noise = estimation - reference", expect='projection')
+mut('C19-setsnr-exponent', 'C19', SX, "    factor = 10 ** (-(snr - current_snr) / 20)", "    factor = 10 ** (-(snr - current_snr) / 10)", expect='factor')
+mut('C19-input-keys', 'C19', SX, "            return {return_dict + 'sdr': SDR,\n                    return_dict + 'sir': SIR,\n                    return_dict + 'snr': SNR}\n        else:\n            raise TypeError(return_dict)\n    else:\n        return ResultTuple(SDR, SIR, SNR)\n\n\ndef output_sxr", "            return {return_dict + 'sdr': SDR,\n                    return_dict + 'sir': SIR,\n                    'snr': SNR}\n        else:\n            raise TypeError(return_dict)\n    else:\n        return ResultTuple(SDR, SIR, SNR)\n\n\ndef output_sxr", expect='keys')
+
 # ------------------------------------------------------------------ neutral variants (must stay silent)
 neu('N-rename-affiliation-local', ALLP, [(D + 'mixture_model_utils.py', "    denominator = np.maximum(\n        np.sum(affiliation, axis=-2, keepdims=True),\n        np.finfo(affiliation.dtype).tiny,\n    )\n    affiliation /= denominator\n",
      "    norm_const = np.maximum(\n        np.sum(affiliation, axis=-2, keepdims=True),\n        np.finfo(affiliation.dtype).tiny,\n    )\n    affiliation /= norm_const\n", False)])
@@ -329,6 +382,10 @@ neu('N-optimal-rename', ALLP, [('pb_bss/permutation_alignment.py', "            
 neu('N-wrapper-reordered-branches', ALLP, [('pb_bss/extraction/beamformer_wrapper.py', "    if atf_type == 'rank1_pca':\n        return get_pca_rank_one_estimate(target_psd_matrix, **atf_kwargs)\n    elif atf_type == 'rank1_gev':\n        return get_gev_rank_one_estimate(\n            target_psd_matrix, noise_psd_matrix, **atf_kwargs)",
                                              "    if atf_type == 'rank1_gev':\n        return get_gev_rank_one_estimate(\n            target_psd_matrix, noise_psd_matrix, **atf_kwargs)\n    elif atf_type == 'rank1_pca':\n        return get_pca_rank_one_estimate(target_psd_matrix, **atf_kwargs)", False)])
 neu('N-phase-correction-copy-method', ALLP, [('pb_bss/extraction/beamformer.py', "    vector = np.array(vector, copy=True)", "    vector = np.asarray(vector).copy()", False)])
+neu('N-mask-axis-keyword', ALLP, [('pb_bss/extraction/mask_module.py', "    mask /= mask.sum(source_axis, keepdims=True) + eps\n\n    if sensor_axis is not None and not keepdims:", "    mask /= np.sum(mask, axis=source_axis, keepdims=True) + eps\n\n    if sensor_axis is not None and not keepdims:", False)])
+neu('N-sxr-rename-powers', ALLP, [('pb_bss/evaluation/sxr_module.py', "    SDR = _sxr(SS, II + NN)\n    SIR = _sxr(SS, II)\n    SNR = _sxr(SS, NN)", "    SDR = _sxr(SS, NN + II)\n    SIR = _sxr(SS, II)\n    SNR = _sxr(SS, NN)", False)])
+neu('N-gaussian-postinit-temp', ALLP, [(D + 'gaussian.py', "        self.log_det_precision_cholesky = np.reshape(\n            _compute_log_det_cholesky(pc, 'full', D),\n            self.covariance.shape[:-2]\n        )", "        flat_log_det = _compute_log_det_cholesky(pc, 'full', D)\n        leading = self.covariance.shape[:-2]\n        self.log_det_precision_cholesky = np.reshape(flat_log_det, leading)", False)])
+neu('N-vmf-clip-keywords', ALLP, [(D + 'von_mises_fisher.py', "        concentration = np.clip(\n            concentration, min_concentration, max_concentration\n        )", "        concentration = np.clip(concentration, a_min=min_concentration, a_max=max_concentration)", False)])
 neu('N-add-unrelated-public-function', ALLP, [('pb_bss/extraction/mask_module.py', "def biased_binary_mask(", "def mask_energy(mask):\n    \"\"\"Sum of squares (new helper).\"\"\"\n    mask = np.asarray(mask)\n    return np.sum(mask ** 2)\n\n\ndef biased_binary_mask(", False)])
 neu('N-psd-copy-via-array', ALLP, [('pb_bss/extraction/beamformer.py', "        mask = np.copy(mask)\n", "        mask = np.array(mask, copy=True)\n", False)])
 neu('N-gcacgmm-commute-streams', ALLP, [(D + 'gcacgmm.py',
